@@ -82,6 +82,49 @@ pub fn run(a: &Args) -> i32 {
     }
     rep.add("table_cell_pairs", evals / 2);
 
+    // ---- part 1b: asymmetric material contexts (the endgame switch looks at both sides) ----
+    // each side independently gets one of six context sets on fixed squares; every piece cell is
+    // then read in each of the 36 combinations and compared with the colour-swapped rotated board
+    {
+        let side_ctx: [&[(Kind, u8)]; 6] = [&[], &[(Kind::Queen, D1)], &[(Kind::Queen, D1), (Kind::Knight, 1)], &[(Kind::Queen, D1), (Kind::Rook, A1)], &[(Kind::Knight, 1)], &[(Kind::Rook, A1), (Kind::Knight, 1)]];
+        let mut n = 0u64;
+        for wc in side_ctx.iter() {
+            for bc in side_ctx.iter() {
+                let mut ctx: Vec<(Kind, Side, u8)> = Vec::new();
+                for (k, s) in wc.iter() {
+                    ctx.push((*k, Side::White, *s));
+                }
+                for (k, s) in bc.iter() {
+                    ctx.push((*k, Side::Black, 63 - *s));
+                }
+                for k in KINDS {
+                    for sq in 0..64u8 {
+                        if ctx.iter().any(|c| c.2 == sq) {
+                            continue;
+                        }
+                        for side in [Side::White, Side::Black] {
+                            let mut ps = ctx.clone();
+                            ps.push((k, side, sq));
+                            let m = mirror(&ps);
+                            n += 1;
+                            evals += 2;
+                            match (score_of(&ps), score_of(&m)) {
+                                (Ok(x), Ok(y)) => {
+                                    outcomes.insert(x as i32);
+                                    if x as i32 != -(y as i32) {
+                                        sink.push(v("score-not-antisymmetric-in-asymmetric-material", describe(&ps), format!("score {} vs colour-swapped rotated {}", x, y), json!({"kind": "c18-pieces", "pieces": describe(&ps)})));
+                                    }
+                                }
+                                (x, y) => sink.push(v("evaluation-panics", describe(&ps), format!("{:?} / {:?}", x, y), json!({"kind": "c18-pieces", "pieces": describe(&ps)}))),
+                            }
+                        }
+                    }
+                }
+            }
+        }
+        rep.add("asymmetric_context_pairs", n);
+    }
+
     // ---- part 2: every walked position and its mirror ----
     {
         let mut items = Vec::new();
